@@ -173,6 +173,7 @@ func (h *hist) setup() {
 	}
 	for _, nd := range w.nodes[:nGenesis] {
 		must("fund ONT", h.transfer(nutils.OntContractAddress, w.admin, nd.defOwner, fundOnt/10))
+		must("fund ONG", h.transfer(nutils.OngContractAddress, w.bank, nd.defOwner, fundOng))
 		h.deposited[nd.defOwner] = w.genesisPos
 	}
 }
